@@ -1103,7 +1103,7 @@ func main() {
 	mon.InitRepo()
 	buildPosIdx()
 
-	nCases := mon.N(40, 500)
+	nCases := mon.N(40, 250)
 	nNames := mon.N(5000, 20000)
 	p := params{
 		bbFirst: mon.N(4000, 10000), // grouped black-box lines on the first listing order
@@ -1146,8 +1146,11 @@ func main() {
 	if workers > 12 {
 		workers = 12
 	}
-	if workers < 1 {
-		workers = 1
+	if _, k := mon.Shard(); k > 1 { // should the driver ever shard this check: share the cores
+		workers = workers / k
+	}
+	if workers < 2 {
+		workers = 2
 	}
 	// a worker and the relay loops it hands lines to ping-pong on unbuffered channels: with no idle
 	// P around, the hand-off stays on the worker's P instead of waking another thread
